@@ -26,6 +26,9 @@ func NewPeerWorld(seed uint64, mtu uint32, o NodeOpts) *PeerWorld {
 	w := &PeerWorld{World: NewWorld(seed), seed: seed}
 	rand.VerifSeed(sim.Mix(seed ^ 0x7a5d))
 	ipv4.VerifReset()
+	if sim.Mix(seed^0xfd11)%6 == 0 {
+		o.Fd = true // swarm parameter: one run in six talks through the real fd-based Ethernet endpoint
+	}
 	w.S = w.NewNode("S", mtu, A4, A6, -1, o)
 	w.Mon = NewMonitor()
 	w.AttachMonitor(w.Mon, func(d *Decoded) { w.Seen = append(w.Seen, d) })
